@@ -58,6 +58,9 @@ theorem no_oob_categorical_import_checked (cats : List (Bytes × Int)) (hnd : (c
   | none => intro hc; cases hc
   | some codes => intro hc; cases hc
 
+example : categoricalImportChecked C06.demoCats [C06.demoChunk] [] ≠ .error (.oob "chunk[row_idx]") :=
+  no_oob_categorical_import_checked C06.demoCats (by decide) _ _ (.cons C06.demo_encodes .nil) [] _
+
 /-- `leaky_categorical_transform`: the free-text buffer (sized by the column's staging capacity) is never overrun,
     whatever the share of unmatched cells -/
 theorem no_oob_leaky_categorical_transform (cats : List (Bytes × Int)) (hnd : (cats.map (·.1)).Nodup) (c : Chunk)
